@@ -1173,11 +1173,14 @@ def _get_cached_arg_spec(fn: Callable[..., Any]) -> inspect.FullArgSpec:
   """Gets cached argspec for `fn`."""
   arg_spec = _ARG_SPEC_CACHE.get(fn)
   if arg_spec is None:
+    # `getfullargspec` ignores `__wrapped__`: look through wrappers (e.g., an
+    # inherited constructor that is itself a Gin wrapper) to the real signature.
+    unwrapped = inspect.unwrap(fn)
     try:
-      arg_spec = inspect.getfullargspec(fn)
+      arg_spec = inspect.getfullargspec(unwrapped)
     except TypeError:
       # `fn` might be a callable object.
-      arg_spec = inspect.getfullargspec(fn.__call__)
+      arg_spec = inspect.getfullargspec(unwrapped.__call__)
     _ARG_SPEC_CACHE[fn] = arg_spec
   return arg_spec
 
